@@ -199,7 +199,16 @@ def serve_obj(obj, ce=""):
     ds["v"] = BaseType("v", obj)
     held = ds["v"].data
     r = X.get(BaseHandler(ds), "/d.dods" + (("?" + ce) if ce else ""))
-    raw = r.body
+    try:
+        raw = r.body
+    except AssertionError:
+        # webob refuses a body whose length differs from the announced Content-Length: take the bytes as they come from
+        # the application (the body is judged against the reference bytes; the announced length is C06's concern)
+        from webob import Request
+        chunks = []
+        req = Request.blank("/d.dods" + (("?" + ce) if ce else ""))
+        app_iter = BaseHandler(ds)(req.environ, lambda status, headers, exc_info=None: chunks.append)
+        raw = b"".join(app_iter)
     if not raw.startswith(b"Dataset {") or b"Data:\n" not in raw:
         return held, r.status_int, raw[:200], None
     dds, xdr = X.split_body(raw)
